@@ -402,6 +402,102 @@ def gen_eq_cases(ctx: Ctx, n: int, salt: str = "eqfam"):
 
 
 
+# ---- reset family and 3-D photon family: situations the general stream reaches too rarely (measured: `condition`)
+
+
+def gen_reset_case(r, det, bucket, rows, cols):
+    """content (finite, NaN or infinite), optional in-place addition, then a reset of some kind, then reads."""
+    budget = [1900]
+    ops = []
+    vc = r.choice(["pos", "pos", "pos+nan", "pos+inf", "pos+ninf", "zero", "pos+nan+inf"])
+    if bucket == "image":
+        vc = r.choice(["pos", "zero", "wrap"])
+    if bucket == "photon" and r.random() < 0.4:
+        ops.append({"op": "set3d", "arr": gen_xr(r, rows, cols, budget, 1.0, vclass=vc)})
+    elif r.random() < 0.85:
+        how = "update" if (bucket != "photon" and r.random() < 0.3) else "set"
+        ops.append({"op": how, "arr": gen_np(r, bucket, rows, cols, budget, 1.0, vclass=vc)})
+    if r.random() < 0.3:
+        ops.append({"op": "iadd", "arr": gen_np(r, bucket, rows, cols, budget, 0.9), "via": "detector"})
+    k = r.random()
+    if k < 0.55:
+        ops.append({"op": "dempty", "reset": r.random() < 0.65})
+    elif k < 0.8 or bucket == "photon":
+        ops.append({"op": "empty"})
+    else:
+        ops.append({"op": "update", "arr": None})
+    ops.append({"op": r.choice(["read", "asarray", "read3d" if bucket == "photon" else "read"])})
+    if r.random() < 0.5:
+        ops.append({"op": "eq", "other": {"kind": bucket, "rows": rows, "cols": cols, "content": None}})
+    if r.random() < 0.4:
+        ops.append({"op": "iadd", "arr": gen_np(r, bucket, rows, cols, budget, 0.9)})
+        ops.append({"op": "dempty", "reset": r.random() < 0.5})
+        ops.append({"op": "read"})
+    return {"det": det, "rows": rows, "cols": cols, "bucket": bucket, "ops": ops}
+
+
+def gen_3d_case(r, det, rows, cols):
+    """a multi-wavelength photon and everything that can be done to it"""
+    budget = [1900]
+    w = r.choice([1, 2, 3])
+    first = gen_xr(r, rows, cols, budget, 1.0, w=w, vclass=r.choice(["pos", "pos", "neg", "pos+nan", "zero"]))
+    ops = [{"op": "set3d", "arr": first}]
+    for _ in range(r.choice([2, 3, 4, 6])):
+        k = r.choices(["iadd", "add", "iadd_np", "dassign3", "dassign2", "dassign0", "set", "set3d", "eq", "read", "empty", "dempty"],
+                      [22, 14, 6, 10, 6, 4, 6, 6, 12, 8, 3, 3])[0]
+        if k in ("iadd", "add"):
+            form = r.choices(["good", "shifted", "badyx", "perm", "nocoord", "2d"], [60, 12, 10, 6, 6, 6])[0]
+            a = gen_xr(r, rows, cols, budget, 1.0, w=w if r.random() < 0.85 else None, form=form,
+                       dt=r.choice(FLOATS) if r.random() < 0.8 else r.choice(DTYPES))
+            ops.append({"op": k, "arr": a})
+            if k == "iadd" and r.random() < 0.5:
+                ops[-1]["via"] = "detector"
+        elif k == "iadd_np":
+            ops.append({"op": "iadd", "arr": gen_np(r, "photon", rows, cols, budget, 0.8)})
+        elif k in ("dassign3", "dassign2", "dassign0"):
+            ro, co = (rows, cols) if r.random() < 0.7 else r.choice(GEOMS)
+            content = (None if k == "dassign0" else
+                       gen_xr(r, ro, co, budget, 1.0, vclass=r.choice(["pos", "neg", "nan"])) if k == "dassign3" else
+                       gen_np(r, "photon", ro, co, budget, 1.0, vclass=r.choice(["pos", "neg"])))
+            ops.append({"op": "dassign", "other": {"kind": "photon", "rows": ro, "cols": co, "content": content}})
+        elif k == "set":
+            ops.append({"op": "set", "arr": gen_np(r, "photon", rows, cols, budget, 0.8)})
+        elif k == "set3d":
+            ops.append({"op": "set3d", "arr": gen_xr(r, rows, cols, budget, 0.7)})
+        elif k == "eq":
+            ro, co = (rows, cols) if r.random() < 0.7 else r.choice(GEOMS)
+            v = r.random()
+            content = (copy.deepcopy(first) if v < 0.35 and (ro, co) == (rows, cols) else
+                       gen_xr(r, ro, co, budget, 1.0, vclass="pos") if v < 0.7 else
+                       gen_np(r, "photon", ro, co, budget, 1.0, vclass="pos") if v < 0.85 else None)
+            ops.append({"op": r.choice(["eq", "eqrev"]), "other": {"kind": "photon", "rows": ro, "cols": co, "content": content}})
+        elif k == "read":
+            ops.append({"op": r.choice(["read3d", "read3d", "read", "asarray"])})
+        elif k == "empty":
+            ops.append({"op": "empty"})
+        else:
+            ops.append({"op": "dempty", "reset": r.random() < 0.5})
+        if r.random() < 0.3:
+            ops.append({"op": "read3d"})
+    return {"det": det, "rows": rows, "cols": cols, "bucket": "photon", "ops": ops}
+
+
+def gen_family_cases(ctx: Ctx, n: int, salt: str = "families"):
+    r = ctx.rng(salt)
+    dets = ["mkid", "ccd", "mkid", "cmos", "mkid", "apd"]
+    out = []
+    for i in range(n):
+        det = dets[i % len(dets)]
+        rows, cols = r.choice(GEOMS)
+        if i % 3 == 2:
+            out.append(gen_3d_case(r, det, rows, cols))
+        else:
+            bucket = "phase" if (det == "mkid" and r.random() < 0.6) else r.choice(buckets_of(det))
+            out.append(gen_reset_case(r, det, bucket, rows, cols))
+    return out
+
+
+
 def alphabet(bucket, rows, cols):
     """A fixed small alphabet of operations per bucket (exhaustive short sequences)."""
     fl = "float32"
@@ -826,6 +922,7 @@ def run(ctx: Ctx):
     cases += gen_cases(ctx, ctx.budget(700, 4000), "valid", 0.8)
     cases += gen_cases(ctx, ctx.budget(350, 2000), "malformed", 0.3)
     cases += gen_eq_cases(ctx, ctx.budget(200, 1500))
+    cases += gen_family_cases(ctx, ctx.budget(240, 1500))
     if not ctx.quick:
         cases += exhaustive_cases(2)
     pairs, mism, viol, unm = evaluate(ctx, cases, "c")
@@ -848,6 +945,49 @@ def run(ctx: Ctx):
     order_violations(ctx)
 
 
+def conditions(case, obs):
+    """Labels of the property-relevant situations a case step exercises (measured into the evidence, so that
+    constant or near-constant conditions of the generator show up)."""
+    out = []
+    bucket = case["bucket"]
+    prev_raise = False
+    for i, o in enumerate(case["ops"]):
+        before = obs[i - 1]["state"] if i > 0 else None
+        res = obs[i]["out"]
+        st = state_class(before)
+        k = o["op"]
+        ok = res["t"] != "raise"
+        tag = "ok" if ok else "raise:" + res["cls"]
+        if k in ("iadd", "add"):
+            a = o["arr"]
+            form = ("xr" if a["xr"] is not None else "np")
+            bc = "" if a["xr"] is not None or before is None or a["shape"] == before["shape"] else ":bcast"
+            out.append(f"{'photon' if bucket == 'photon' else 'base'}.{k} on {st} {form}{bc} -> {tag}")
+            if ok and before is not None and any((isinstance(v, int) and v < 0) or v == "-inf" for v in a["data"]):
+                out.append(f"{'photon' if bucket == 'photon' else 'base'}.{k} negative operand accepted on initialised")
+            if ok and before is not None and before["dt"] != a["dt"]:
+                out.append(f"{k} mixed dtypes accepted")
+        elif k in ("set", "set3d", "update"):
+            out.append(f"{'photon' if bucket == 'photon' else 'base'}.{k} on {st} -> {tag}")
+        elif k in ("eq", "eqrev"):
+            ot = o["other"]
+            rel = ("other_kind" if ot["kind"] != bucket else
+                   "same_geom" if (ot["rows"], ot["cols"]) == (case["rows"], case["cols"]) else "other_geom")
+            out.append(f"eq {st} vs {state_class(ot['content'])} {rel} -> {res.get('v', tag)}")
+        elif k == "dassign":
+            out.append(f"dassign {bucket if bucket == 'photon' else 'base'} on {st} from {state_class(o['other']['content'])} -> {tag}")
+        elif k == "dempty":
+            out.append(f"dempty({o['reset']}) {bucket} {st}")
+        elif k in ("read", "read3d", "asarray"):
+            out.append(f"{k} {'photon' if bucket == 'photon' else 'base'} {st} -> {tag}")
+            if prev_raise:
+                out.append("read right after a rejected operation")
+        elif k == "empty":
+            out.append(f"empty {bucket if bucket in ('photon', 'pixel') else 'base'} {st}")
+        prev_raise = (not ok) and k not in ("read", "read3d", "asarray", "eq", "eqrev")
+    return out
+
+
 def account(ctx: Ctx, pairs, mism, unm, n_corpus=0):
     seen = set()
     for c, o in pairs:
@@ -863,6 +1003,8 @@ def account(ctx: Ctx, pairs, mism, unm, n_corpus=0):
                 ctx.dist("operand_dtype", op["arr"]["dt"])
                 ctx.dist("operand_class", operand_class(c["bucket"], c["rows"], c["cols"], op["arr"]))
                 ctx.dist("operand_values", value_class(op["arr"]))
+        for lab in conditions(c, o):
+            ctx.dist("condition", lab)
         if nontrivial(c, o):
             seen.add(json.dumps(c, sort_keys=True))
     ctx.cov["distinct_nontrivial"] = ctx.cov.get("distinct_nontrivial", 0) + len(seen)
@@ -907,7 +1049,7 @@ def new_violations(ctx: Ctx):
 def search(ctx: Ctx):
     """A proof obligation or the correspondence broke: look harder for a concrete failing input."""
     ctx.log("searching for a concrete failing input (all pairs of the op alphabet, larger random budget)")
-    cases = exhaustive_cases(2) + gen_cases(ctx, 1500, "search", 0.5) + gen_eq_cases(ctx, 600, "search_eq")
+    cases = exhaustive_cases(2) + gen_cases(ctx, 1500, "search", 0.5) + gen_eq_cases(ctx, 600, "search_eq") + gen_family_cases(ctx, 600, "search_fam")
     for b in ctx.broken:
         if isinstance(b.case, dict) and "case" in b.case:
             cases.append(b.case["case"])
